@@ -15,6 +15,7 @@
 (*     - year 0000 in dates; second 60 (leap second)                       *)
 (*     - Length, data (the property does not list them)                    *)
 (*     - MultipleValueString with leading / trailing / double spaces       *)
+(*     - numerals longer than 300 characters (a double overflows at 309)   *)
 (***************************************************************************)
 EXTENDS Integers, Sequences, FiniteSets, TLC
 
@@ -83,7 +84,8 @@ StringLex(s, soh) ==
     IF \E i \in 1..Len(s) : Ch(s, i) = soh THEN "no" ELSE IF \E i \in 1..Len(s) : Ch(s, i) = "=" THEN "unspec" ELSE "yes"
 
 \* soh = the SOH character as a one-character string (TLA+ has no escape for it; supplied by the caller)
-InLex(type, s, soh) ==
+NumericTypes == {"INT", "FLOAT", "QTY", "PRICE", "PRICEOFFSET", "AMT", "PERCENTAGE", "SEQNUM", "NUMINGROUP", "DAYOFMONTH", "LENGTH"}
+InLex0(type, s, soh) ==
     IF s = "" THEN "no"
     ELSE CASE type = "INT" -> Y3(IntLex(s))
            [] type \in {"FLOAT", "QTY", "PRICE", "PRICEOFFSET", "AMT", "PERCENTAGE"} -> FloatLex(s)
@@ -103,4 +105,8 @@ InLex(type, s, soh) ==
            [] type = "UTCTIMESTAMP" -> TimestampLex(s)
            [] type = "MONTHYEAR" -> MonthYearLex(s)
            [] OTHER -> "unspec"        \* LENGTH, DATA, unknown types
+\* numerals of more than 300 characters are in the lexical space but beyond what any implementation can be
+\* required to represent (a double overflows at 309 digits): acceptance unspecified, rejection class still asserted
+InLex(type, s, soh) ==
+    LET r == InLex0(type, s, soh) IN IF type \in NumericTypes /\ Len(s) > 300 /\ r = "yes" THEN "unspec" ELSE r
 =============================================================================
